@@ -7,43 +7,39 @@ From GT Require Import Base.GoStr Md.Parser Tree.Tree Spec.Spec Spec.Classify Sp
   Proofs.Spelled Proofs.SpelledTop Proofs.SplitSchedule.
 Import ListNotations.
 
-Lemma unscan_block rows : rows <> [] ->
-  unscan (map (fun r => (r, false)) rows) true = block_bytes rows.
+Lemma block_lines_go_row : forall r cur rest, ~ In c_lf r ->
+  block_lines_go cur (r ++ c_lf :: rest) = (rev cur ++ r) :: block_lines_go [] rest.
 Proof.
-  induction rows as [|r rest IH]; intros H; [congruence|].
-  destruct rest as [|r2 rest'].
-  - cbn. rewrite app_nil_r. reflexivity.
-  - change (unscan (map (fun r => (r, false)) (r :: r2 :: rest')) true)
-      with (r ++ [c_lf] ++ unscan (map (fun r => (r, false)) (r2 :: rest')) true).
-    rewrite IH by discriminate. cbn [block_bytes flat_map]. rewrite <- !app_assoc. reflexivity.
+  induction r as [|c r IH]; intros cur rest Hn.
+  - cbn [app block_lines_go]. rewrite Ascii.eqb_refl, app_nil_r. reflexivity.
+  - cbn [app block_lines_go]. destruct (Ascii.eqb c c_lf) eqn:E.
+    + apply Ascii.eqb_eq in E. subst c. exfalso. apply Hn. left. reflexivity.
+    + rewrite IH by (intros H; apply Hn; right; exact H). cbn [rev]. rewrite <- app_assoc. reflexivity.
 Qed.
 
-(* a block of well-behaved rows is scanned back into its rows *)
-Lemma rescan_block rows : Forall row_bytes_ok rows -> scan_lines (block_bytes rows) = (rows, ScanEOF).
+(* a block of rows without line feeds is read back as its rows *)
+Lemma rescan_block rows : Forall (fun r => ~ In c_lf r) rows -> block_lines (block_bytes rows) = rows.
 Proof.
-  intros H. destruct rows as [|r rest]; [reflexivity|].
-  rewrite <- unscan_block by discriminate.
-  rewrite scan_unscan.
-  - rewrite map_map. cbn [fst]. rewrite map_id. reflexivity.
-  - rewrite Forall_map. cbn [fst]. exact H.
-  - discriminate.
+  unfold block_lines. induction rows as [|r rest IH]; intros H; [reflexivity|].
+  inversion H as [|? ? Hr Hrest]; subst. cbn [block_bytes flat_map]. rewrite <- app_assoc. cbn [app].
+  rewrite (block_lines_go_row r [] _ Hr). cbn [rev app]. f_equal. apply IH. exact Hrest.
 Qed.
 
-Lemma gen_block_rows rows : Forall row_bytes_ok rows ->
+Lemma gen_block_rows rows : Forall (fun r => ~ In c_lf r) rows ->
   gen_block (block_bytes rows) = worker None (parse_all p0 rows).
 Proof. intros H. unfold gen_block. rewrite (rescan_block rows H). reflexivity. Qed.
 
-Lemma blocks_rows_ok rows : Forall row_bytes_ok rows -> Forall (Forall row_bytes_ok) (split_rows rows).
+Lemma blocks_rows_ok rows : Forall row_bytes_ok rows -> Forall (Forall (fun r => ~ In c_lf r)) (split_rows rows).
 Proof.
   intros H. rewrite Forall_forall. intros b Hb. rewrite Forall_forall. intros r Hr.
-  rewrite Forall_forall in H. apply H. rewrite <- (split_concat rows). apply in_concat. exists b. auto.
+  rewrite Forall_forall in H. apply (H r). rewrite <- (split_concat rows). apply in_concat. exists b. auto.
 Qed.
 
 Theorem massive_front_end sp f :
   spells sp f -> sp_heading sp = false ->
   let rows := map fst (sp_rows sp) in
   split_doc (bytes_of sp) = (map block_bytes (split_rows rows), true) /\
-  Forall (fun b => scan_lines (block_bytes b) = (b, ScanEOF)) (split_rows rows) /\
+  Forall (fun b => block_lines (block_bytes b) = b) (split_rows rows) /\
   forall sched, interleave (split_rows rows) sched ->
     roots_of (results_by_block (List.length (split_rows rows)) (run_sched p0 sched)) = map trie_of f /\
     forall order, Permutation order (seq 0 (List.length (split_rows rows))) ->
